@@ -384,5 +384,7 @@ def run(F, rep, tier):
     rule_r3(F, rep)
     rule_r4(F, rep)
     rule_r5(F, rep)
+    from . import casts
+    casts.rule(F, rep, "C06.R4")
     rep.assume("digit-exact rendering (rounding, exponent form, %g) is value-level and not decided")
     return EXPLANATION
